@@ -165,19 +165,23 @@ func evalMutant(c mutCase) (o outcome) {
 		ytext, ixY = nil, nil
 	}
 
+	slow := false
+	for _, d := range deepExpensive {
+		slow = slow || (c.Fault == "deep" && c.Arg == d)
+	}
 	var vj, vy verdict
 	var uj, uy string
 	var wg sync.WaitGroup
 	wg.Add(1)
 	go func() {
 		defer wg.Done()
-		vj, uj = execute(request{Name: jsonName, Data: jtext, Strict: c.Strict})
+		vj, uj = execute(request{Name: jsonName, Data: jtext, Strict: c.Strict, Slow: slow})
 	}()
 	if ixY != nil {
 		wg.Add(1)
 		go func() {
 			defer wg.Done()
-			vy, uy = execute(request{Name: yamlName, Data: ytext, Strict: c.Strict})
+			vy, uy = execute(request{Name: yamlName, Data: ytext, Strict: c.Strict, Slow: slow})
 		}()
 	}
 	baseKey := c.Base
